@@ -32,6 +32,10 @@ def cases():
     C.append(('channel-manual-error-c0', dict(kind='channel', down=1, up=2, pub='manual', cancel_after=0, credit='max', ending='error')))
     C.append(('channel-manual-error-c1', dict(kind='channel', down=2, up=2, pub='manual', cancel_after=1, credit='one', ending='error')))
     C.append(('stream-manual-error-c1', dict(kind='stream', down=2, pub='manual', cancel_after=1, credit='one', ending='error')))
+    # the handler coroutine is still suspended inside the peer's receiver when the CANCEL arrives
+    C.append(('rr-slow-handler', dict(kind='rr', rr_mode='slow', cancel_after=0)))
+    C.append(('stream-slow-handler-c0', dict(kind='stream', down=3, pub='manual', cancel_after=0, credit='max', ending='complete', rr_mode='slow')))
+    C.append(('channel-slow-handler-c0', dict(kind='channel', down=3, up=1, pub='gen', cancel_after=0, credit='max', ending='flag', rr_mode='slow')))
     for pub in ('rx3', 'rx4', 'rx3bp', 'rx4bp'):
         C.append(('stream-%s-c0' % pub, dict(kind='stream', down=3, pub=pub, cancel_after=0, credit='max', ending='complete')))
         C.append(('stream-%s-c1' % pub, dict(kind='stream', down=3, pub=pub, cancel_after=1, credit='one', ending='complete')))
